@@ -29,9 +29,6 @@ func init() {
 			Monitors: []Monitor{monitorCuckoo("redis", p)}, OpName: cuckooOpName, Nontrivial: ckNontrivial,
 			Rule: "as cuckoo-mem, against the Redis-backed filter on miniredis", Quick: 60, Thorough: 1500})
 	}
-	registry["C09"] = append(registry["C09"], Suite{Name: "cuckoo-redis", NewMachine: cuckooRedisGen.mk, Gen: genC09(cuckooRedisGen),
-		Monitors: []Monitor{monitorPersist(cuckooRedisGen, "C09")}, OpName: cuckooOpName,
-		Rule: "re-attachment of a Redis-backed cuckoo filter at a random point, operations through either handle", Quick: 40, Thorough: 1000})
 	registry["C02"] = append(registry["C02"], Suite{Name: "murmur", NewMachine: func() Machine { return &withCodec{genericMachine: &cuckooMem{}} }, Gen: genMurmur,
 		OpName: cuckooOpName, Rule: "murmur3 model vs getHash on random strings of every length 0..48", Quick: 20, Thorough: 400})
 
@@ -132,10 +129,10 @@ func init() {
 				}
 				return false
 			},
-			Rule: "two clients issue one update each against the same Redis-backed structure under a random schedule of >=4 turns at Redis-command granularity (go-redis hook); results and final state diffed against the interleaving model", Quick: 40, Thorough: 1200})
+			Rule: "two clients issue one update each against the same Redis-backed structure under a random schedule of >=4 turns at Redis-command granularity (go-redis hook); results and final state diffed against the interleaving model", Quick: 120, Thorough: 2500})
 	}
 	registry["C19"] = []Suite{
-		{Name: "shared-db", NewMachine: newMultiMachine, Gen: genC19,
+		{Name: "shared-db", NewMachine: newMultiMachine, Gen: genC19, OMonitors: []OMonitor{monitorC19},
 			OpName: func(op Tok) string {
 				names := []string{"bloom", "cms", "hll", "cuckoo", "topk"}
 				return names[op.L[0].I()]
